@@ -22,7 +22,7 @@ def tx_trace(tx, rng):
     t = {"kind": "tx", "tx": unsignx.tx_rec(st), "keep": list(keep), "parsed": False, "out": unsignx.tx_rec(st),
          "keepout": [], "raw": [], "raw2": [], "rawv": [], "code": 0, "contacted": False}
     try:
-        out = real_unsign(raw.hex())
+        out = real_unsign(raw.hex() if rng.random() < 0.75 else enc.respell(raw.hex(), rng))
     except Exception:
         # a decodable transaction the code refuses: an observation (nothing was relayed), judged by TLC
         t["raw"], t["raw2"], t["rawv"] = [256], [256], [256]
